@@ -465,3 +465,19 @@ func mountOK() bool {
 	mountOnce.Do(func() { mountOk = ops.MountWorks(scratch) })
 	return mountOk
 }
+
+var (
+	ptyOnce sync.Once
+	ptyOk   bool
+)
+
+// ptyOK: this process can open a pseudo terminal (ops.Faults.IOKind 10, C16's stdout "tty").
+func ptyOK() bool {
+	ptyOnce.Do(func() {
+		if p, err := ops.OpenPty(); err == nil {
+			p.Finish()
+			ptyOk = true
+		}
+	})
+	return ptyOk
+}
